@@ -237,6 +237,15 @@ func propC16(c *Ctx) {
 					}
 				}
 			}
+			// no loop of its own: the candidates are filtered by a library call that visits every element
+			// (slices.DeleteFunc(possible, absent)); nothing can be left early
+			if nApp == 0 {
+				for _, ci := range callsIn(aui) {
+					if n := calleeName(ci); n == "slices.DeleteFunc" || n == "slices.Collect" {
+						nApp++
+					}
+				}
+			}
 			c.Check("R16.2", "AddUniqueIndex/every-candidate-examined", aui.Pos(), nApp > 0 && !early, "the loop over the key candidates is left only when all of them were looked at")
 		}
 		c.Check("R16.2", "AddUniqueIndex/default-key", aui.Pos(), okUser && okStore, "a user-supplied unique key is kept; otherwise the identity columns present form the key")
